@@ -161,6 +161,11 @@ def dims_parseable(spec):
     return all(dims_parseable(k) for k in spec[2])
 
 
+def DIM_RE_OK(s):
+    dims_parseable(("b", "x", "d", (), ()))
+    return bool(DIM_RE.match(s))
+
+
 def in_domain(spec, depth_seq=0):
     """the property's trees: dims absent or one per declared extent; sequence members are columns"""
     kind = spec[0]
@@ -535,6 +540,22 @@ def explore(ctx, tier, search=False):
     for spec in FIXED_TREES:
         check_tree(ctx, P, spec, cases, "fixed")
     ctx.correspond("dds()/dds_to_dataset on printed trees", cases, known_class=None)
+    # `_quote` on raw ASCII names (the bridge from raw names to the theorems' domain `NameOk`)
+    from pydap.lib import _quote
+    cases = []
+    rngq = ctx.rng("quote")
+    raws = ["a b", "Period.", "a[0]", "x&y", "dap4", "dap4 is odd.", "%", "a/b", "~-_!*'\"", "\t", "{};:=,()#"]
+    for _ in range(ctx.budget(2000, 20000)):
+        raws.append("".join(rngq.choice(IDENT + QUOTE_NEEDED.replace("é", "").replace("中", "") + "/dap4")
+                            for _ in range(rngq.randint(1, 9))))
+    for raw in raws:
+        q = _quote(raw)
+        cases.append(("dds-quote " + hexb(raw.encode()), hexb(q.encode()), {"raw": raw}))
+        ctx.count(("quote", raw), q != raw, tag="quote:" + ("changed" if q != raw else "identity"))
+        if not raw.startswith("dap4") and "/" not in raw and not DIM_RE_OK(q):
+            ctx.oracle_fail("_quote leaves a character the DDS parser's name_regexp does not accept",
+                            {"kind": "quote", "raw": raw}, q, "[\\w%!~\"'*-]+")
+    ctx.correspond("_quote on ASCII names", cases)
     cases = []
     rngf = ctx.rng("foreign")
     texts = []
@@ -646,6 +667,11 @@ def replay(payload):
             return (x[0], x[1], [tup(k) for k in x[2]])
         return x
 
+    if c["kind"] == "quote":
+        from pydap.lib import _quote
+        q = _quote(c["raw"])
+        print("quoted:", q)
+        return DIM_RE_OK(q)
     if c["kind"] == "tree":
         spec = tup(c["spec"])
         ds = build(P, spec)
